@@ -75,7 +75,11 @@ def build_loss(rec):
     if rec["ot"] == "affine":
         ot = lambda i, o, p: o * p.eq_params["k1"] + p.eq_params["k2"]
     lo, hi = rec["sol"]
-    u = make_pinn(rec["V"], eq_type, output_transform=ot, slice_solution=jnp.s_[lo - 1:hi])
+    spinn = rec.get("net") == "spinn"
+    if spinn:
+        u = make_poly_spinn(rec["coef"], nin, rec["spR"], rec["spM"], eq_type)
+    else:
+        u = make_pinn(rec["V"], eq_type, output_transform=ot, slice_solution=jnp.s_[lo - 1:hi])
     pshape = (1,) if rec.get("pshape") == "one" else ()
     params = jinns.parameters.Params(nn_params=u.init_params(),
                                      eq_params={k: jnp.full(pshape, float(v)) for k, v in zip(pkeys, rec["th"])})
@@ -129,11 +133,11 @@ def build_loss(rec):
             scalar = rec["gret"] == "scalar" and len(g) == 1
 
             def val(inputs):
-                z = [inputs[i] for i in range(nin)]
-                v = jnp.stack([polyeval(gc, z) for gc in g])
-                return v[0] if scalar else v
+                z = [inputs[..., i] for i in range(nin)]
+                v = jnp.stack([polyeval(gc, z) + 0.0 * z[0] for gc in g], axis=-1)
+                return v[..., 0] if scalar else v
             if has_t:
-                return lambda t, dx: val(jnp.concatenate([t, dx]))
+                return lambda t, dx: val(jnp.concatenate([t, dx], axis=-1))
             return lambda dx: val(dx)
         cname = lambda k: {"dirichlet": "dirichlet", "neumann": "von neumann", "none": None}[k]
         facets = ["xmin", "xmax", "ymin", "ymax"][: 2 * dim]
@@ -148,7 +152,8 @@ def build_loss(rec):
                       omega_boundary_condition={k: cname(b["kind"]) for k, b in fb},
                       omega_boundary_dim={k: jnp.s_[b["comp"][0] - 1:b["comp"][1]] for k, b in fb})
     if rec["norm"]["on"]:
-        kw.update(norm_samples=jnp.asarray(np.array(rec["norm"]["samples"], dtype=np.float64)), norm_int_length=float(rec["norm"]["L"]))
+        samples = rec["cols_norm"] if spinn else rec["norm"]["samples"]
+        kw.update(norm_samples=jnp.asarray(np.array(samples, dtype=np.float64)), norm_int_length=float(rec["norm"]["L"]))
     osl = rec["obsd"]["slice"]
     if lkind == "ode":
         lw = jinns.loss.LossWeightsODE(dyn_loss=wt(w["dyn"]), initial_condition=wt(w["ic"]), observations=wt(w["obs"]))
@@ -162,15 +167,17 @@ def build_loss(rec):
                                                 observations=wt(w["obs"]), initial_condition=wt(w["ic"]))
         if rec["ic"]["on"]:
             u0 = rec["ic"]["u0"]
-            kw.update(initial_condition_fun=lambda x: jnp.stack([polyeval(c, [x[i] for i in range(dim)]) for c in u0]))
+            kw.update(initial_condition_fun=lambda x: jnp.stack([polyeval(c, [x[..., i] for i in range(dim)]) + 0.0 * x[..., 0] for c in u0], axis=-1))
         loss = jinns.loss.LossPDENonStatio(u=u, dynamic_loss=dyn, loss_weights=lw, obs_slice=jnp.s_[osl[0] - 1:osl[1]], params=params, **kw)
     # batch
-    inside = np.array(rec["inside"], dtype=np.float64).reshape(len(rec["inside"]), nin)
+    rows_inside = rec["cols_inside"] if spinn else rec["inside"]
+    rows_border = rec.get("cols_border", []) if spinn else rec["border"]
+    inside = np.array(rows_inside, dtype=np.float64).reshape(len(rows_inside), nin)
     border = None
-    if rec["border"]:
-        nb = len(rec["border"][0])
-        border = np.zeros((nb, nin, len(rec["border"])))
-        for f, rows in enumerate(rec["border"]):
+    if rows_border:
+        nb = len(rows_border[0])
+        border = np.zeros((nb, nin, len(rows_border)))
+        for f, rows in enumerate(rows_border):
             border[:, :, f] = np.array(rows, dtype=np.float64).reshape(nb, nin)
         border = jnp.asarray(border)
     if lkind == "ode":
@@ -207,8 +214,10 @@ def run_loss(rec):
 
 
 # ---------------------------------------------------------------------------------- C13 systems
-def build_sysloss(rec):
+def build_sysloss(rec, dk_dict=None, onehot=None):
     import warnings
+
+    spinn = False
 
     import jax.numpy as jnp
     import jinns
@@ -223,7 +232,8 @@ def build_sysloss(rec):
     eq_type = {"ode": "ODE", "statio": "statio_PDE", "nonstatio": "nonstatio_PDE"}[lkind]
     pkeys = ["k1", "k2"]
     names = [n["name"] for n in rec["nets"]]
-    u_dict = {n["name"]: make_pinn([n["V"]], eq_type) for n in rec["nets"]}
+    aff = (lambda i, o, p: o * p.eq_params["k1"] + p.eq_params["k2"]) if rec.get("ot") == "affine" else None
+    u_dict = {n["name"]: make_pinn([n["V"]], eq_type, output_transform=aff) for n in rec["nets"]}
     pd = jinns.parameters.ParamsDict(nn_params={k: u.init_params() for k, u in u_dict.items()},
                                      eq_params={k: jnp.array(float(v)) for k, v in zip(pkeys, rec["th"])})
 
@@ -255,17 +265,22 @@ def build_sysloss(rec):
         return Eq(Tmax=1)
 
     dyn = {e["name"]: mk_eq(e["R"]) for e in rec["eqs"]}
+    kw = {}
     scalar = rec["wform"] == "scalar"
     rev = (lambda items: list(items)[::-1]) if rec.get("wrev") else (lambda items: list(items))
     wdyn = float(rec["eqs"][0]["w"]) if scalar else {e["name"]: float(e["w"]) for e in rev(rec["eqs"])}
     wu = lambda f: float(rec["wu"][0][f]) if scalar else {n: float(w[f]) for n, w in rev(zip(names, rec["wu"]))}
-    kw = {}
+    if onehot is not None:            # unit weights; for the per-unknown terms only the designated unknown counts
+        wdyn = 1.0
+        wu = lambda f: ({n: (1.0 if n == onehot else 0.0) for n in names} if onehot != "*" else 1.0)
+    if dk_dict is not None:
+        kw["derivative_keys_dict"] = dk_dict
     if lkind == "ode":
         lw = jinns.loss.LossWeightsODEDict(dyn_loss=wdyn, initial_condition=wu("ic"), observations=wu("obs"))
         ic = {n["name"]: ((float(n["ic"]["t0"]), jnp.array([float(v) for v in n["ic"]["u0"]])) if n["ic"]["on"] else None) for n in rec["nets"]}
         if all(v is None for v in ic.values()):
             ic = None
-        loss = jinns.loss.SystemLossODE(u_dict=u_dict, dynamic_loss_dict=dyn, initial_condition_dict=ic, loss_weights=lw, params_dict=pd)
+        loss = jinns.loss.SystemLossODE(u_dict=u_dict, dynamic_loss_dict=dyn, initial_condition_dict=ic, loss_weights=lw, params_dict=pd, **kw)
     else:
         lw = jinns.loss.LossWeightsPDEDict(dyn_loss=wdyn, norm_loss=wu("norm"), boundary_loss=wu("bnd"), observations=wu("obs"),
                                           initial_condition=wu("ic"))
@@ -285,12 +300,14 @@ def build_sysloss(rec):
                 return lambda x: jnp.stack([polyeval(u0[0], [x[i] for i in range(dim)])])
             kw.update(initial_condition_fun_dict={n["name"]: (mk_u0(n) if n["ic"]["on"] else None) for n in rec["nets"]})
         loss = jinns.loss.SystemLossPDE(u_dict=u_dict, dynamic_loss_dict=dyn, loss_weights=lw, params_dict=pd, **kw)
-    inside = np.array(rec["inside"], dtype=np.float64).reshape(len(rec["inside"]), nin)
+    rows_inside = rec["cols_inside"] if spinn else rec["inside"]
+    rows_border = rec.get("cols_border", []) if spinn else rec["border"]
+    inside = np.array(rows_inside, dtype=np.float64).reshape(len(rows_inside), nin)
     border = None
-    if rec["border"]:
-        nb = len(rec["border"][0])
-        border = np.zeros((nb, nin, len(rec["border"])))
-        for f, rows in enumerate(rec["border"]):
+    if rows_border:
+        nb = len(rows_border[0])
+        border = np.zeros((nb, nin, len(rows_border)))
+        for f, rows in enumerate(rows_border):
             border[:, :, f] = np.array(rows, dtype=np.float64).reshape(nb, nin)
         border = jnp.asarray(border)
     if lkind == "ode":
@@ -707,3 +724,90 @@ def run_fwdrev(rec):
 
 
 RUNNERS["fwdrev"] = run_fwdrev
+
+
+# ---------------------------------------------------------------------------------- C06 on system losses
+SYS_TERMS = dict(sysode=["initial_condition", "observations"], syspde=["initial_condition", "boundary_loss", "observations"])
+
+
+def run_sysgradbatch(task):
+    """per-unknown derivative keys of SystemLossODE / SystemLossPDE: pairs (unknown, term) x groups (nn of that unknown, k1, k2)"""
+    import jax
+    import jax.numpy as jnp
+    import jinns
+    from jinns.parameters import DerivativeKeysODE, DerivativeKeysPDENonStatio, Params
+
+    from . import lossrec
+
+    lk = task["lkind"]
+    terms = SYS_TERMS[lk]
+    names = ["ua", "ub"]
+    DK = DerivativeKeysODE if lk == "sysode" else DerivativeKeysPDENonStatio
+    allf = ["dyn_loss", "initial_condition", "observations"] + ([] if lk == "sysode" else ["norm_loss", "boundary_loss"])
+    for attempt in range(25):
+        st = dict(family="C13", lkind="ode" if lk == "sysode" else "nonstatio", neq=2, nunk=2, naming="same", wform="scalar", icpat="all",
+                  obspat="all", bnd=(lk == "syspde"), pbatch=False, attempt=attempt)
+        rec = lossrec.expand(st, task.get("seed", 0))
+        rec["ot"] = "affine"
+        if lk == "syspde":      # every unknown gets a boundary condition
+            for k, n in enumerate(rec["nets"]):
+                for b in n["bnd"]:
+                    b["kind"] = "dirichlet"      # (a Neumann term does not depend on the additive parameter k2)
+
+        def mk_mask(m):
+            return Params(nn_params=m[0], eq_params={"k1": m[1], "k2": m[2]})
+
+        def dkd(masks):           # masks[u][t] -> [nn, k1, k2]
+            return {n: DK(**{f: (mk_mask(masks[u][terms.index(f)]) if f in terms else mk_mask([True, True, True])) for f in allf})
+                    for u, n in enumerate(names)}
+
+        full = [[[True] * 3 for _ in terms] for _ in names]
+
+        def flat(g):
+            return [np.asarray(g.nn_params["ua"].C).ravel(), np.asarray(g.nn_params["ub"].C).ravel(),
+                    np.asarray(g.eq_params["k1"]).ravel(), np.asarray(g.eq_params["k2"]).ravel()]
+
+        loss_all, pd, batch = build_sysloss(rec, dk_dict=dkd(full), onehot="*")
+        ref_vals = loss_all.evaluate(pd, batch)[1]
+        tnames = ["dyn_loss"] + terms
+        G = [[fracs(v) for v in flat(jax.grad(lambda p: loss_all.evaluate(p, batch)[1]["dyn_loss"])(pd))]]
+        for u, n in enumerate(names):
+            l1, _, _ = build_sysloss(rec, dk_dict=dkd(full), onehot=n)
+            for t in terms:
+                G.append([fracs(v) for v in flat(jax.grad(lambda p: l1.evaluate(p, batch)[1][t])(pd))])
+        # non-vacuity: each (unknown, term) pair must have a non-zero gradient w.r.t. its own network and k1, k2
+        ok = True
+        for u in range(2):
+            for ti in range(len(terms)):
+                row = G[1 + u * len(terms) + ti]
+                for grp in (row[u], row[2], row[3]):
+                    ok = ok and any(q["n"] != 0 for q in grp)
+        if ok:
+            break
+    else:
+        raise RuntimeError("vacuous C06 system problem")
+    ref = [frac(ref_vals[t]) for t in tnames]
+    outs = []
+    for m in task["masks"]:
+        mk = m["mask"]            # pairs in the order (ua, t1), (ua, t2).., (ub, t1)..  each [nn, k1, k2]
+        masks = [[mk[u * len(terms) + ti] for ti in range(len(terms))] for u in range(2)]
+        out = dict(kind="grad", lkind=lk, form="bool", G=G, ref=ref, exc="", src=m.get("src", "tlc"))
+        # selection per (pair, gradient group): the network bit of an unknown's term selects that unknown's network only
+        sel = [[True, True, True, True]]
+        for u in range(2):
+            for ti in range(len(terms)):
+                b = masks[u][ti]
+                sel.append([bool(b[0]) if u == 0 else True, bool(b[0]) if u == 1 else True, bool(b[1]), bool(b[2])])
+        out["mask"] = sel
+        try:
+            l, _, _ = build_sysloss(rec, dk_dict=dkd(masks), onehot="*")
+            (tot, tv), g = jax.value_and_grad(lambda p: l.evaluate(p, batch), has_aux=True)(pd)
+            out["obs"] = dict(total=frac(tot), terms=[frac(tv[t]) for t in tnames], grad=[fracs(v) for v in flat(g)])
+        except Exception as ex:  # noqa
+            out["obs"] = dict(total=dict(n=0, d=1, ok=True), terms=[], grad=[])
+            out["exc"] = f"{type(ex).__name__}: {str(ex)[:200]}"
+        outs.append(out)
+    return dict(_many=outs)
+
+
+RUNNERS["sysgradbatch"] = run_sysgradbatch
